@@ -365,6 +365,17 @@ func expandBorder(baseURL string, _ pr.Shortand, tokens []Token) (out expandedPr
 		}
 		out = append(out, props...)
 	}
+	// The border shorthand also resets border-image to its initial value.
+	// See https://www.w3.org/TR/css-backgrounds-3/#border-shorthands
+	reset := pr.Initial
+	if getSingleKeyword(tokens) == "inherit" {
+		reset = pr.Inherit
+	}
+	for _, name := range [...]pr.KnownProp{
+		pr.PBorderImageSource, pr.PBorderImageSlice, pr.PBorderImageWidth, pr.PBorderImageOutset, pr.PBorderImageRepeat,
+	} {
+		out = append(out, namedProperty{name: pr.PropKey{KnownProp: name}, property: reset})
+	}
 	return out, nil
 }
 
